@@ -31,7 +31,8 @@ EXPLANATION = (
     " (R10) C17.R8 re-run (Kruskal on intersection weights); (R11) compact reversal: the s and z statements of each block copy address identical positions."
     " (R12) consecutive vertex numbers follow snode_post; psd_complete gathers with the ordering and scatters with its inverse."
     " (R13) compact augmentation of an undecomposed cone shifts the indices of b and the row indices of A by the same offset."
-    " (R14) wherever the original cones and the sparsity patterns are walked side by side (standard and compact augmentation, dimension count) a pattern is consumed only after its orig_index was found equal to the cone's index - an undecomposed PSD cone has no pattern.")
+    " (R14) wherever the original cones and the sparsity patterns are walked side by side (standard and compact augmentation, dimension count) a pattern is consumed only after its orig_index was found equal to the cone's index - an undecomposed PSD cone has no pattern."
+    ' (R15) get_block_indices pushes only pairs with row <= col (tested on the path or built as (min, max)); (R16) the compact reversal resizes the clique buffer to the clique before sorting / iterating it as a whole.')
 ASSUMPTIONS = ['rustc MIR construction and trait resolution are correct',
                'the sdp code is analysed by type-checking only (cargo check with empty blas-src/lapack-src); it is never linked or run']
 
@@ -680,6 +681,64 @@ def pattern_owner(rep, F, tag):
     R.guard(body)
 
 
+def block_indices_upper(rep, F, tag):
+    """The compact augmentation lists the entries of a clique block as (row, col) pairs of the *upper* triangle and sorts them by col * nv + row.  The vertices
+    have already been mapped back to the original numbering, where a supernode vertex can be smaller or larger than a separator vertex: a pair is in the upper
+    triangle only if it was tested (i <= j) or built as (min, max).  An unordered pair addresses the transposed position: the block's rows are laid out
+    in the wrong order and the decomposed problem is a different problem."""
+    R = rep.rule('C18.R15', 'get_block_indices pushes only pairs with row <= col: tested on the path, or built as (min, max)')
+
+    def body():
+        fs = F.find(name='get_block_indices')
+        if len(fs) != 1:
+            raise AnchorError('get_block_indices matched %d functions' % len(fs))
+        f = fs[0]
+        n = 0
+        for val, ret, ev, tr in Walker(f, cut_loops=True).leaves():
+            for e in ev:
+                if e[0] != 'call' or e[1] != 'push':
+                    continue
+                a = split_args(str(e[2]))
+                if len(a) != 2 or not a[1].startswith('tuple('):
+                    continue
+                t = split_args(a[1])
+                if len(t) != 3:
+                    continue
+                n += 1
+                mm = re.fullmatch(r'min\((.*)\)', t[0]) and re.fullmatch(r'max\((.*)\)', t[1]) and sorted(split_args(t[0])) == sorted(split_args(t[1]))
+                strip = lambda k: re.sub(r'#\d+$', '', k)
+                tested = any(strip(k) in ('le(%s, %s)' % (t[0], t[1]), 'lt(%s, %s)' % (t[0], t[1])) and v == 1 for k, v in val.items()) or \
+                    any(strip(k) in ('gt(%s, %s)' % (t[0], t[1]), 'lt(%s, %s)' % (t[1], t[0])) and v == 0 for k, v in val.items())
+                R.check(bool(mm) or tested, 'upper|%s%s' % (t[2], tag),
+                        'get_block_indices pushes the pair (%s, %s) on a path that has not established row <= col (tests: %s): for a supernode vertex larger than a '
+                        'separator vertex this is a position of the lower triangle' % (t[0][:50], t[1][:50], [k[:60] for k in val if k.startswith(('le(', 'lt(', 'gt('))]), f.loc())
+        R.check(n >= 3, 'pushes' + tag, 'only %d pushes analysed in get_block_indices' % n)
+
+    R.guard(body)
+
+
+def clique_buffer_sized(rep, F, tag):
+    """The reversal of the compact form loads each clique into a caller-provided buffer (allocated once for the largest clique) and then sorts and iterates
+    the *whole* buffer: it must be cut to the clique's length first, otherwise leftover vertices of a previous, larger clique are treated as members."""
+    R = rep.rule('C18.R16', 'compact reversal: the clique buffer is resized to the clique before it is filled, sorted and iterated as a whole')
+
+    def body():
+        fs = [x for x in F.find(name='add_blocks_with_sparsity_pattern') if 'reverse_compact' in x.file]
+        if len(fs) != 1:
+            raise AnchorError('reverse_compact::add_blocks_with_sparsity_pattern matched %d functions' % len(fs))
+        f = fs[0]
+        whole = [c for c in f.calls if c.callee.name in ('iter', 'sort', 'sort_unstable', 'iter_mut') and c.args and canon(f.sym_operand(c.args[0])) == 'arg8']
+        rs = [c for c in f.calls if c.callee.name == 'resize' and c.args and canon(f.sym_operand(c.args[0])) == 'arg8']
+        R.check(len(whole) >= 2, 'whole-uses' + tag, 'only %d whole-buffer uses found' % len(whole), f.loc())
+        ok = len(rs) == 1 and re.fullmatch(r'len\(get_clique\(arg6\.sntree, arg7\)\)', canon(f.sym_operand(rs[0].args[1]))) is not None
+        ok = ok and all(f.dominates(rs[0].bb, c.bb) for c in whole)
+        R.check(ok, 'resized-first' + tag,
+                'the clique buffer is sorted / iterated as a whole without having been resized to len(clique) first (resize calls: %s): after a larger clique the tail '
+                'of the buffer still holds its vertices' % [canon(f.sym_operand(c.args[1]))[:60] for c in rs], f.loc())
+
+    R.guard(body)
+
+
 def run(ctx, rep, tier):
     stage_rules(ctx, rep, 'C18.R1')
     for cfg in (CONFIGS_THOROUGH if tier == 'thorough' else CONFIGS):
@@ -696,6 +755,8 @@ def run(ctx, rep, tier):
         completion_numbering(rep, F, tag)
         cone_rows_shift(rep, F, tag)
         pattern_owner(rep, F, tag)
+        block_indices_upper(rep, F, tag)
+        clique_buffer_sized(rep, F, tag)
         # the decomposed problem is equivalent only if the merged cliques still form a clique tree (C17.R8 re-run)
         from . import c17, c04
         c17.tree_from_graph(c04._Ren(rep, 'C17.R8', 'C18.R10'), F, tag)
